@@ -1124,15 +1124,21 @@ impl TypeSpace {
 
         // See if the value bounds fit within a known type.
         let maybe_type = match (min, max) {
-            (None, Some(max)) => formats.iter().rev().find_map(|(_, ty, _nz_ty, _, imax)| {
-                if (imax - max).abs() <= f64::EPSILON {
+            // With no lower bound only a type that extends to the least
+            // representable integer is acceptable.
+            (None, Some(max)) => formats.iter().rev().find_map(|(_, ty, _nz_ty, imin, imax)| {
+                if (imax - max).abs() <= f64::EPSILON && *imin <= i64::MIN as f64 {
                     Some(ty.to_string())
                 } else {
                     None
                 }
             }),
-            (Some(min), None) => formats.iter().rev().find_map(|(_, ty, nz_ty, imin, _)| {
-                if min == 1. {
+            // With no upper bound only a type that extends to the greatest
+            // representable integer is acceptable.
+            (Some(min), None) => formats.iter().rev().find_map(|(_, ty, nz_ty, imin, imax)| {
+                if *imax < i64::MAX as f64 {
+                    None
+                } else if min == 1. {
                     Some(nz_ty.to_string())
                 } else if (imin - min).abs() <= f64::EPSILON {
                     Some(ty.to_string())
